@@ -13,7 +13,11 @@ use lipe_find_parser::Target;
 
 const ALPHA: [char; 18] = ['"', '\\', '~', '%', '(', ')', ';', '#', '\n', '\t', '\u{1}', '\u{e9}', '\u{1f600}', 'a', 'A', '*', '?', '['];
 
-const SITES: [&str; 14] = ["name", "iname", "path", "ipath", "pool", "xattr", "xattr-match-name", "xattr-match-value", "fprint", "fprint0", "fprintf-file", "printf-literal", "fprintf-literal", "device"];
+// every site in both output modes (the two managers generate definitions separately)
+const SITES: [&str; 25] = [
+    "name", "iname", "path", "ipath", "pool", "xattr", "xattr-match-name", "xattr-match-value", "fprint", "fprint0", "fprintf-file", "printf-literal", "fprintf-literal", "device",
+    "name+framed", "iname+framed", "path+framed", "ipath+framed", "pool+framed", "xattr+framed", "xattr-match-name+framed", "xattr-match-value+framed", "printf-literal+plain", "printf-octal", "device+framed",
+];
 
 fn hostile_char(c: char) -> bool {
     matches!(c, '"' | '\\' | '~' | '%' | '(' | ')' | ';' | '#') || c.is_control() || !c.is_ascii()
@@ -47,9 +51,30 @@ fn fmt_escape(s: &str) -> String {
     o
 }
 
+/// every character as a \\NNN escape (ASCII below 0200), others as they are
+fn fmt_octal(s: &str) -> String {
+    let mut o = String::new();
+    for c in s.chars() {
+        if (c as u32) < 0o200 && (c as u32) > 0 {
+            o.push_str(&format!("\\{:03o}", c as u32));
+        } else {
+            o.push(c);
+        }
+    }
+    o
+}
+
 fn input_for(site: &str, s: &str) -> Option<String> {
     let w = quote_word(s)?;
+    if let Some(base) = site.strip_suffix("+framed") {
+        if base == "device" {
+            return Some("-print0".to_string());
+        }
+        return Some(format!("{} -print0", input_for(base, s)?));
+    }
     Some(match site {
+        "printf-literal+plain" => format!("-printf {}", quote_word(&format!("{}\\n", fmt_escape(s)))?),
+        "printf-octal" => format!("-printf {}", quote_word(&fmt_octal(s))?),
         "name" => format!("-name {}", w),
         "iname" => format!("-iname {}", w),
         "path" => format!("-path {}", w),
@@ -88,6 +113,13 @@ fn check(site: &str, s: &str, case: &str, rep: &mut Report) {
     if site.contains("literal") && s.chars().next().map_or(false, |c| c.is_ascii_digit()) {
         return;
     }
+    if site == "printf-octal" && s.chars().any(|c| c.is_ascii_digit() || c == '\\' || c == '%') {
+        // a digit after \\NNN would extend nothing (three digits exactly) but keep the site simple;
+        // raw '%' and '\\' would be read as directives / escapes
+        if s.chars().any(|c| c.is_ascii_digit()) {
+            return;
+        }
+    }
     rep.evaluations += 1;
     let class = char_class(s);
     let sig = |what: &str| format!("C04:{}:{}:{}", what, site, class);
@@ -104,20 +136,28 @@ fn check(site: &str, s: &str, case: &str, rep: &mut Report) {
         }
     };
     // the tree must carry the string itself (otherwise the parser, not the emitter, is the subject)
-    let carried = match (&parsed.1, site) {
-        (Expression::Test(Test::Name(x) | Test::InsensitiveName(x) | Test::Path(x) | Test::InsensitivePath(x) | Test::Pool(x) | Test::Xattr(x)), _) => x == s,
-        (Expression::Test(Test::XattrMatch(n, _)), "xattr-match-name") => n == s,
-        (Expression::Test(Test::XattrMatch(_, v)), "xattr-match-value") => v == s,
-        (Expression::Action(Action::FilePrint(f) | Action::FilePrintNull(f) | Action::FilePrintFormatted(f, _)), "fprint" | "fprint0" | "fprintf-file") => f == s,
-        (Expression::Action(Action::PrintFormatted(f) | Action::FilePrintFormatted(_, f)), _) => crate::findsem::render_format(f, &crate::rec::FileRecord::base(0)).map_or(false, |r| r == *s),
-        (_, "device") => true,
-        _ => false,
-    };
+    let base_site = site.split('+').next().unwrap();
+    let mut ts = vec![];
+    let mut av = vec![];
+    crate::findsem::tests(&parsed.1, &mut ts);
+    crate::findsem::actions(&parsed.1, &mut av);
+    let carried = base_site == "device"
+        || ts.iter().any(|t| match (t, base_site) {
+            (Test::Name(x) | Test::InsensitiveName(x) | Test::Path(x) | Test::InsensitivePath(x) | Test::Pool(x) | Test::Xattr(x), _) => x == s,
+            (Test::XattrMatch(n, _), "xattr-match-name") => n == s,
+            (Test::XattrMatch(_, v), "xattr-match-value") => v == s,
+            _ => false,
+        })
+        || av.iter().any(|a| match (a, base_site) {
+            (Action::FilePrint(f) | Action::FilePrintNull(f) | Action::FilePrintFormatted(f, _), "fprint" | "fprint0" | "fprintf-file") => f == s,
+            (Action::PrintFormatted(f) | Action::FilePrintFormatted(_, f), _) => crate::findsem::render_format(f, &crate::rec::FileRecord::base(0)).map_or(false, |r| r == *s || r == format!("{}\n", s)),
+            _ => false,
+        });
     if !carried {
         rep.count("tree_does_not_carry_the_string");
         return;
     }
-    let device = if site == "device" { s.to_string() } else { "/dev/mdt0".to_string() };
+    let device = if base_site == "device" { s.to_string() } else { "/dev/mdt0".to_string() };
     let compiled = match compile_g(&parsed.1, &parsed.0, &device) {
         Ok((Ok(c), _, _)) => c,
         Ok((Err(_), _, _)) => {
@@ -151,7 +191,7 @@ fn check(site: &str, s: &str, case: &str, rep: &mut Report) {
         let twin_text = input_for(site, &ts);
         let twin_prog = twin_text.and_then(|tt| match parse_g(&tt) {
             Ok(Ok((o, e))) => {
-                let dev = if site == "device" { ts.clone() } else { "/dev/mdt0".to_string() };
+                let dev = if base_site == "device" { ts.clone() } else { "/dev/mdt0".to_string() };
                 match compile_g(&e, &o, &dev) {
                     Ok((Ok(c), _, _)) => read_program(&c.text).ok(),
                     _ => None,
@@ -174,14 +214,14 @@ fn check(site: &str, s: &str, case: &str, rep: &mut Report) {
     let whole = Sx::List(forms.clone());
     whole.strings(&mut leaves);
     let in_table = compiled.io_map.as_ref().map_or(false, |m| m.values().any(|t| matches!(t, Target::File(f, _) if f == s)));
-    let needs_leaf = !site.contains("literal");
+    let needs_leaf = !site.contains("literal") && !site.contains("octal");
     if needs_leaf && !(leaves.iter().any(|l| *l == s) || in_table) {
         rep.violation(&sig("not-carried-verbatim"), &format!("{} string {:?}: no string literal of the program (nor the destination table) decodes to exactly that string; literals: {:?}", site, s, leaves.iter().take(6).collect::<Vec<_>>()), case, detail());
         return;
     }
     // (3) behaviour: execute and compare with the reference (literal format text printed verbatim,
     // patterns matched as given)
-    if site != "device" {
+    if base_site != "device" {
         let mut r = Rng::new(3);
         let e = parsed.1.clone();
         match validate(&e, &parsed.0, &mut |now| directed_records(&e, now, &mut r, 2)) {
@@ -277,6 +317,6 @@ pub fn run(ctx: &Ctx, rep: &mut Report) {
     if ctx.only.is_none() {
         let cells = rep.sets.get("site_x_char").map(|s| s.len()).unwrap_or(0);
         rep.extra.push(("site_x_hostile_char_cells_covered".into(), J::Int(cells as i128)));
-        rep.floor("site x hostile-character matrix covered (>= 150 of 182 cells)", cells >= 150);
+        rep.floor("site x hostile-character matrix covered (>= 270 of 325 cells)", cells >= 270);
     }
 }
